@@ -106,6 +106,7 @@ INT_TYPES = {'u8': (8, False), 'u16': (16, False), 'u32': (32, False), 'u64': (6
              'char': (32, False)}
 
 VARIANTS = {   # discriminant order of enums we meet (std + repo); extended from source
+    'allocator::SExp': ['Atom', 'Pair'],
     'Option': ['None', 'Some'],
     'Result': ['Ok', 'Err'],
 }
@@ -445,6 +446,8 @@ class Engine:
     # ------------------------------------------------------------ operands
     def operand(self, f, fr, s):
         s = s.strip()
+        if s.startswith('no_retag '):
+            s = s[len('no_retag '):]
         if s.startswith('copy '):
             return self.copyval(self.load(fr, self.parse_place(s[5:])))
         if s.startswith('move '):
@@ -476,6 +479,10 @@ class Engine:
             if t.startswith('{closure@'):
                 return Closure(t, [])
             return Opaque(t)
+        import mirparse
+        for k in (s, s.split('::')[-1]):
+            if k in mirparse.CONSTS:
+                return self.const(mirparse.CONSTS[k])
         m = re.match(r'^(.*)::promoted\[(\d+)\]$', s)
         if m:
             fn = self.resolve(m.group(1))
@@ -531,7 +538,7 @@ class Engine:
         if m:
             v = self.operand(f, fr, m.group(1))
             return self.cast(v, m.group(2).strip(), m.group(3))
-        if s.startswith(('copy ', 'move ', 'const ')):
+        if s.startswith(('copy ', 'move ', 'const ', 'no_retag ')):
             return self.operand(f, fr, s)
         return self.aggregate(f, fr, s, ty)
 
@@ -560,7 +567,7 @@ class Engine:
         return Ref(cell, outp)
 
     def variant_index(self, v):
-        names = VARIANTS.get(v.ty.split('::')[-1].split('<')[0])
+        names = VARIANTS.get(v.ty) or VARIANTS.get(v.ty.split('::')[-1].split('<')[0])
         if names is None:
             raise Unsupported('unknown enum layout ' + v.ty)
         return names.index(v.variant)
